@@ -34,10 +34,18 @@ def run_histories(out, tooldir, env, specs, hists, name, pid, compare=True):
     for k, note in notes.items():
         if note.startswith("build failed"):
             out.violation("does-not-compile", "an accepted configuration over the fixture universe does not compile: %s" % note[:300], dict(common.slim(specs[k], obs[k]), note=note))
+        else:
+            # an accepted configuration that the probe cannot be attached to (package / constructor not recognised): not shown to hold
+            out.broke("probe:%s (%s)" % (name, note), common.slim(specs[k], obs[k]))
     mod, err = rt.model_histories(env, specs, obs, hists)
     if mod is None:
         out.broke("correspondence:%s (runtime model evaluation failed)" % name, err)
     acc = [k for k in range(len(specs)) if real[k] is not None]
+    n_acc_build = sum(1 for o in obs if o.get("exit") == 0)
+    if specs and (not acc or len(acc) < n_acc_build):
+        out.broke("probe:%s" % name, "%d configurations accepted by the build, %d executed by the probe" % (n_acc_build, len(acc)))
+    if len(specs) >= 10 and len(acc) * 2 < len(specs):
+        out.broke("probe:%s (generator)" % name, "only %d of %d generated configurations are accepted: the family does not exercise what it claims" % (len(acc), len(specs)))
     rl, ml = {}, {}
     for k in acc:
         rl[k] = rt.renumber([rt.canon(x) for x in real[k]["lines"]])
